@@ -43,6 +43,7 @@ class Loop:
         self.contr_calls = []
         self.dof_subscripts = []
         self.stores = []
+        self.add_at = []  # np.add.at(vector, index set, value): unbuffered accumulation
 
 
 class SystemModel:
@@ -94,6 +95,8 @@ class SystemModel:
                             lp.dof_subscripts.append(x)
                         if isinstance(x, (ast.Assign, ast.AugAssign)):
                             lp.stores.append(x)
+                        if isinstance(x, ast.Expr) and isinstance(x.value, ast.Call) and (dotted(x.value.func) or "") in ("np.add.at", "numpy.add.at"):
+                            lp.add_at.append(x.value)
                 out.append(lp)
         return out
 
